@@ -151,6 +151,23 @@ Definition elements_feature_ids (l : list (kind * Z * Z)) : list Z :=
 Definition objects_object_ids (l : list (kind * Z * Z)) : list Z :=
   map (fun '(k, r, v) => object_id k r v) l.
 
+(* The collection-level id functions: WayNodes.ElementIDs/FeatureIDs/NodeIDs,
+   Members.ElementIDs/FeatureIDs, Nodes/Ways/Relations .ElementIDs/FeatureIDs/IDs and
+   OSM.ElementIDs/FeatureIDs.  Each is a loop that applies the per-item method to every item, in
+   order (OSM: nodes, then ways, then relations).  Hand model; which = 0 WayNodes, 1 Members,
+   2 Nodes, 3 Ways, 4 Relations, 5 OSM.  A version of 0 is a version like any other. *)
+Definition coll_order (which : Z) (l : list (kind * Z * Z)) : list (kind * Z * Z) :=
+  if which =? 5 then
+    (filter (fun t => kind_eqb (fst (fst t)) KNode) l ++ filter (fun t => kind_eqb (fst (fst t)) KWay) l
+     ++ filter (fun t => kind_eqb (fst (fst t)) KRelation) l)%list
+  else l.
+Definition coll_element_ids (which : Z) (l : list (kind * Z * Z)) : list Z :=
+  elements_element_ids (coll_order which l).
+Definition coll_feature_ids (which : Z) (l : list (kind * Z * Z)) : list Z :=
+  elements_feature_ids (coll_order which l).
+Definition coll_plain_ids (which : Z) (l : list (kind * Z * Z)) : list Z :=
+  map (fun t => snd (fst t)) l.
+
 (* what a caller of the public API supplies for kind k: versionless kinds ignore v,
    bounds ignore r *)
 Definition norm_r (k : kind) (r : Z) : Z := match k with KBounds => 0 | _ => r end.
